@@ -158,3 +158,17 @@ Proof.
   intros v Hwf. destruct containers_static as (H1 & H2 & H3 & H4 & H5 & H6). destruct scan_statics as [S1 S2].
   exact (scanner_change gen_schema (d_of "Change") (d_of "OSM") v H2 H6 H1 H3 H5 S2 Hwf).
 Qed.
+
+Lemma diff_scan_statics :
+  scan_static gen_schema 11 (d_of "OSM") = true /\ diff_scan_static gen_schema 11 (d_of "Diff") = true.
+Proof. split; vm_compute; reflexivity. Qed.
+
+Theorem scanner_reads_Diff : forall v,
+  wfb gen_schema "Diff" v = true ->
+  exists e, encode1 gen_schema "Diff" v = Ok e
+            /\ scan_el gen_schema e = (diff_objects (d_of "Diff") (d_of "Action") (d_of "OSM") v, None).
+Proof.
+  intros v Hwf. destruct containers_static as (H1 & H2 & H3 & H4 & H5 & H6).
+  destruct diff_statics as (D1 & D2 & D3 & D4 & D5 & D6). destruct diff_scan_statics as [S1 S2].
+  exact (scanner_diff gen_schema (d_of "Diff") (d_of "Action") (d_of "OSM") v H1 H3 D5 D6 S1 D2 D4 D1 D3 S2 Hwf).
+Qed.
